@@ -3,6 +3,7 @@ package psim
 import (
 	"encoding/json"
 	"fmt"
+	"io"
 	"os"
 	"path"
 	"regexp"
@@ -48,6 +49,7 @@ type JobRec struct {
 	Outs         interface{} `json:"outs,omitempty"`
 	Outcome      string      `json:"outcome,omitempty"` // complete, failed:<kind>, killed, aborted
 	Fault        string      `json:"fault,omitempty"`
+	ClusterId    string      `json:"cluster_id,omitempty"`
 	Stale        bool        `json:"stale,omitempty"` // an attempt which went silent, was given up by mrp, and came back
 	Threads      float64     `json:"threads,omitempty"`
 	MemGB        float64     `json:"mem_gb,omitempty"`
@@ -142,11 +144,104 @@ func (r *Run) launch(p *vrt.Proc, c *vproc.Cmd) func() int {
 			r.OnJobStart(j)
 		}
 		return func() int { return r.jobMain(j) }
+	case "qsub":
+		return func() int { return r.clusterSubmit(p, c) }
+	case "sge_queue.py":
+		return func() int { return r.clusterQuery(c) }
 	}
 	if r.ExtraLaunch != nil {
 		return r.ExtraLaunch(p, c)
 	}
 	return nil
+}
+
+// ---- simulated cluster scheduler ----------------------------------------
+
+// parseJobScript extracts the command line (after the environment assignments)
+// from a job script made from the sge template: the command is the last block,
+// one shell-quoted word per continuation line.
+func parseJobScript(script string) []string {
+	lines := strings.Split(strings.TrimRight(script, "\n"), "\n")
+	// the command block starts after the last line which is not a continuation
+	start := len(lines) - 1
+	for start > 0 && strings.HasSuffix(lines[start-1], " \\") {
+		start--
+	}
+	var words []string
+	for _, l := range lines[start:] {
+		w := strings.TrimSpace(strings.TrimSuffix(strings.TrimSpace(l), "\\"))
+		if w == "" {
+			continue
+		}
+		if strings.HasPrefix(w, "\"") && strings.HasSuffix(w, "\"") && len(w) >= 2 {
+			u := w[1 : len(w)-1]
+			u = strings.NewReplacer("\\\\", "\\", "\\\"", "\"", "\\$", "$").Replace(u)
+			words = append(words, u)
+		} else if i := strings.Index(w, "="); i > 0 && !strings.HasPrefix(w, "/") && len(words) == 0 {
+			continue // environment assignment
+		} else {
+			words = append(words, w)
+		}
+	}
+	return words
+}
+
+func (r *Run) clusterSubmit(p *vrt.Proc, c *vproc.Cmd) int {
+	var script []byte
+	if c.Stdin != nil {
+		script, _ = io.ReadAll(c.Stdin)
+	}
+	argv := parseJobScript(string(script))
+	if len(argv) < 5 {
+		fmt.Fprintf(c.Stderr, "qsub: cannot parse job script\n")
+		r.violate("SIM", "stub", "cluster submit: unparseable job script: "+clip(string(script), 300))
+		return 1
+	}
+	cj := &ClusterJob{Id: fmt.Sprintf("%d", 9000+len(r.Cluster)), SubmitSeq: vos.NextSeq()}
+	r.Cluster = append(r.Cluster, cj)
+	r.Faults["cluster-job-submitted"]++
+	// the scheduler starts the job some time later, as a process of its own: it
+	// is not a child of mrp and survives it
+	delay := time.Duration(1+hash64(r.FCfg.Salt, cj.Id, "qdelay")%20) * time.Second
+	jc := &vproc.Cmd{Path: argv[0], Args: argv, Dir: c.Dir}
+	jp := vproc.NewProc("job", argv[0], argv, nil, c.Dir, nil)
+	j := &JobRec{Pid: jp.Pid, Inc: r.Inc, proc: jp, ClusterId: cj.Id}
+	if err := r.identify(j, jc); err != nil {
+		r.violate("SIM", "stub", "cluster job: "+err.Error())
+		return 1
+	}
+	jp.Name = "cjob:" + j.Key() + ":" + j.Phase + "#" + cj.Id
+	vproc.Info(jp).User = j
+	vproc.Info(jp).OnSignal = func(sig syscall.Signal) { r.jobSignal(j, sig) }
+	cj.Proc = jp
+	vproc.StartProc(jp, func() int {
+		vrt.Sleep(delay)
+		j.StartSeq = vos.NextSeq()
+		r.Jobs = append(r.Jobs, j)
+		cj.Rec = j
+		if r.OnJobStart != nil {
+			r.OnJobStart(j)
+		}
+		return r.jobMain(j)
+	})
+	fmt.Fprintf(c.Stdout, "%s\n", cj.Id)
+	return 0
+}
+
+func (r *Run) clusterQuery(c *vproc.Cmd) int {
+	var in []byte
+	if c.Stdin != nil {
+		in, _ = io.ReadAll(c.Stdin)
+	}
+	for _, id := range strings.Fields(string(in)) {
+		for _, cj := range r.Cluster {
+			if cj.Id == id && cj.Live() {
+				fmt.Fprintf(c.Stdout, "%s\n", id)
+			}
+		}
+	}
+	r.Faults["cluster-queue-queried"]++
+	return 0
 }
 
 func (r *Run) attemptNo(j *JobRec) int {
